@@ -378,7 +378,7 @@ def replay(case):
         if cmd == 'del':
             own = [e for e in s.ledger if e['owner'] == CLIENTS[client][0]]
             arg = own[0]['name']
-        res = expand_inner(s, full_prefixes=(i == len(hist) - 1))
+        res = expand_inner(s, full_prefixes=(i == len(hist) - 1 and (client, cmd) in FULL_EVENTS))
         for ev2, new, key, vs, n in res:
             if ev2[0] == client and ev2[1] == cmd and (cmd == 'del' or ev2[2] == ev[2]):
                 if i == len(hist) - 1:
